@@ -388,7 +388,7 @@ fn gen_chunks(rng: &mut Rng, max_total: usize) -> Vec<usize> {
     v
 }
 
-fn gen_msg(rng: &mut Rng, max_body: usize, big_headers: bool, allow_abort: bool) -> MsgPlan {
+fn gen_msg(rng: &mut Rng, max_body: usize, big_headers: bool, allow_abort: bool, allow_silent_drop: bool) -> MsgPlan {
     let chunks = gen_chunks(rng, max_body);
     let eos = if chunks.is_empty() {
         match rng.below(5) {
@@ -414,7 +414,9 @@ fn gen_msg(rng: &mut Rng, max_body: usize, big_headers: bool, allow_abort: bool)
     };
     let abort = if allow_abort && rng.chance(1, 5) {
         let after = rng.usize_below(chunks.len() + 1);
-        let kind = if rng.chance(1, 2) {
+        // dropping a SendStream half-way without a reset is a silent abandonment the peer cannot
+        // see while other handles of the stream live on: only non-cooperative programs do that
+        let kind = if !allow_silent_drop || rng.chance(1, 2) {
             AbortKind::Reset(*rng.pick(&[0u32, 1, 2, 5, 7, 8, 11, 13, 0xff, 0xdead_beef]))
         } else {
             AbortKind::Drop
@@ -612,9 +614,9 @@ fn gen_stream(rng: &mut Rng, idx: u32, o: &GenOpts, push_ok: bool, n_clones: usi
     let allow_abort = !o.coop || matches!(o.focus, Focus::Resets | Focus::Lifecycle | Focus::Forget | Focus::Capacity | Focus::Concurrency | Focus::RecvWindow);
     let big = !o.small && rng.chance(1, 6);
     let method = rng.pick(&["GET", "POST", "PUT", "HEAD", "DELETE", "OPTIONS", "PATCH"]).to_string();
-    let mut req = gen_msg(rng, o.max_body, big, allow_abort);
+    let mut req = gen_msg(rng, o.max_body, big, allow_abort, !o.coop);
     let status = *rng.pick(&[200u16, 200, 200, 201, 204, 206, 304, 400, 404, 500, 299]);
-    let mut resp = gen_msg(rng, o.max_body, big, allow_abort);
+    let mut resp = gen_msg(rng, o.max_body, big, allow_abort, !o.coop);
     if method == "HEAD" {
         // a response to HEAD carries no content; h2 (rightly) resets a stream that does
         for c in resp.chunks.iter_mut() {
@@ -630,7 +632,8 @@ fn gen_stream(rng: &mut Rng, idx: u32, o: &GenOpts, push_ok: bool, n_clones: usi
         req.abort = None;
         resp.abort = None;
     }
-    let allow_stop = allow_abort;
+    // a reader that walks away without resetting is likewise non-cooperative
+    let allow_stop = !o.coop;
     let informational = if rng.chance(1, 5) {
         (0..rng.range(1, 3)).map(|_| (*rng.pick(&[100u16, 102, 103, 199]), gen_fields(rng, false))).collect()
     } else {
@@ -644,7 +647,7 @@ fn gen_stream(rng: &mut Rng, idx: u32, o: &GenOpts, push_ok: bool, n_clones: usi
                 path: format!("/pushed/{}", rng.below(1000)),
                 req_fields: gen_fields(rng, false),
                 status: 200,
-                resp: gen_msg(rng, o.max_body.min(20_000), false, allow_abort),
+                resp: gen_msg(rng, o.max_body.min(20_000), false, allow_abort, !o.coop),
                 read: gen_read(rng, lag_max, allow_stop),
                 before_response: rng.chance(2, 3),
             });
@@ -692,6 +695,19 @@ pub fn generate(seed: u64, o: &GenOpts) -> Scenario {
         client.max_frame_size = None;
         server.max_frame_size = None;
     }
+    // byte-at-a-time transports make every body byte a world event: keep those bodies small.
+    // Large bodies are the exception, not the rule (diversity of alignments matters more than volume).
+    let prof = [gen_profile(&mut rng), gen_profile(&mut rng)];
+    let tiny = |p: &DirProfile| matches!(p.write_max, Chunk::Fixed(n) if n < 64) || matches!(p.deliver, Chunk::Fixed(n) if n < 64) || matches!(p.write_max, Chunk::Uniform(_, hi) if hi <= 64) || matches!(p.deliver, Chunk::Uniform(_, hi) if hi <= 64) || matches!(p.read_max, Chunk::Fixed(n) if n < 64) || matches!(p.read_max, Chunk::Uniform(_, hi) if hi <= 64);
+    let mut max_body = if rng.chance(1, 8) { o.max_body } else { o.max_body.min(70_000) };
+    if tiny(&prof[0]) || tiny(&prof[1]) {
+        max_body = max_body.min(6_000);
+    }
+    let small_send_buffer = |c: &EpCfg| matches!(c.max_send_buffer_size, Some(n) if n < 200);
+    if small_send_buffer(&client) || small_send_buffer(&server) {
+        max_body = max_body.min(4_000);
+    }
+    let o = &GenOpts { focus: o.focus, coop: o.coop, max_streams: o.max_streams, max_body, small: o.small };
     let n_streams = match rng.below(6) {
         0 => 1,
         1 | 2 => rng.range(1, 3) as usize,
@@ -716,6 +732,21 @@ pub fn generate(seed: u64, o: &GenOpts) -> Scenario {
             next_idx += 1;
         }
         streams.push(s);
+    }
+    if !matches!(focus, Focus::Lifecycle | Focus::Resets) {
+        // Resetting a parent whose PUSH_PROMISE is still queued orphans the promised stream, which
+        // then keeps its assigned connection capacity for ever (known finding, C16/C06); only the
+        // reset-oriented workloads keep that shape.
+        for s in streams.iter_mut() {
+            if !s.pushes.is_empty() {
+                s.resp.abort = None;
+                s.server_reset = None;
+                s.client_cancel_after = None;
+                if let Some((_, AbortKind::Reset(_))) = s.req.abort {
+                    s.req.abort = None;
+                }
+            }
+        }
     }
     if focus != Focus::Lifecycle {
         // Pushing concurrently on several parents makes h2 emit promised ids out of order
@@ -802,7 +833,7 @@ pub fn generate(seed: u64, o: &GenOpts) -> Scenario {
         sched: gen_sched(&mut rng),
         client,
         server,
-        prof: [gen_profile(&mut rng), gen_profile(&mut rng)],
+        prof,
         inject,
         streams,
         n_clones,
